@@ -138,6 +138,14 @@ func init() {
 		gOf := func() *enum.Grammar {
 			if g == nil {
 				ps := c01Prods(false)
+				catchStr := func(fault V) V {
+					return form("try", fault, form("catch", sym("e"), form("str", sym("e"))))
+				}
+				ps = append(ps,
+					leaf("catch-arity", catchStr(model.List(form("fn", model.Vec(sym("a")), sym("a"))))),
+					leaf("catch-unbound", catchStr(sym("zz"))),
+					leaf("catch-builtin", catchStr(form("nth", model.Vec(), model.Int(1)))),
+					leaf("catch-non-fn", catchStr(model.List(model.Int(1)))))
 				ps = append(ps, leaf("(throw 3)", form("throw", model.Int(3))), leaf("(t! x)", form("t!", sym("x"))),
 					leaf(`"s"`, model.Str("a b")), leaf("{:k 1}", mp(kw("k"), model.Int(1))))
 				g = enum.New([][]enum.Prod{ps}, fW)
